@@ -19,6 +19,14 @@ def chunks {α : Type} (n : Nat) : Nat → List α → List (List α)
   | _ + 1, [] => []
   | fuel + 1, x :: xs => (x :: xs).take n :: chunks n fuel ((x :: xs).drop n)
 
+/-- `reduced_inner_dims` as coded: `resolved_axes` (sorted ascending, deduplicated) must satisfy
+`axes[i] == ndim - 1 - i` for every position `i`.  Because the axes are ascending this holds only
+for a single axis `ndim - 1` (or no axes): for two or more innermost axes the check fails and
+the contiguous-chunks fast path is not taken (a missed optimisation, not a correctness issue). -/
+def reducedInnerDims (ndim : Nat) (axes : List Nat) : Option Nat :=
+  if (List.zip (List.range axes.length) axes).all (fun p => p.2 + 1 + p.1 == ndim) then some axes.length
+  else none
+
 /-- General path / specification: one output per outer index (row-major over the kept axes), the
 kernel applied to the inner slice read in row-major order through the strides. -/
 def reduceSlices {α β : Type} (kernel : List α → β) (O I : Dims) (base : Nat) (s : Nat → α) : List β :=
